@@ -32,12 +32,14 @@ CONSTANTS NF,        \* user fds are 1..NF; fd 0 is the waker's read end
           MaxW,      \* capacity of the waker socket buffer (send raises BlockingIOError when full)
           WFull,     \* smallest buffer level at which a send may be refused (= MaxW when exact)
           RecvMax,   \* bytes one _consume_waker recv can take (1024 in the code)
-          Hows       \* shutdown paths explored: subset of {"close", "atexit"}
+          Hows,      \* shutdown paths explored: subset of {"close", "atexit"}
+          MaxClose   \* bound on fds the application closes (after unregistering them)
 
 FDs   == 1..NF
 Kinds == {"r", "w"}
 NoArgs == [some |-> FALSE, r |-> {}, w |-> {}]
 NoCb   == [k |-> "n", f |-> 0]
+RawWaker == 90     \* _waker_r.fileno() as a bare int: never a key of _readers
 
 SeqSet(s) == {s[i] : i \in 1..Len(s)}
 Perms(S)  == {s \in [1..Cardinality(S) -> S] : \A i, j \in 1..Cardinality(S) : i # j => s[i] # s[j]}
@@ -59,7 +61,10 @@ variables
     queue = <<>>,                                  \* call_soon_threadsafe(_handle_select, rs, ws)
     started = FALSE, sdone = FALSE,                \* selector thread started / returned
     closeCalled = FALSE, closed = FALSE, how = "none",
-    chg = 0, envn = 0,
+    chg = 0, envn = 0, ncl = 0,
+    closedfds = {},                                \* user fds closed by the application
+    gone = [k \in Kinds |-> {}],                   \* ready during the current select, closed since
+    crashed = FALSE,                               \* selector thread died with an exception
     myargs = NoArgs, must = [k \in Kinds |-> {}],  \* selector thread locals
     res = [rs |-> <<>>, ws |-> <<>>],
     todoR = <<>>, todoW = <<>>, cur = NoCb, ret = "m_top", cret = "m_top";   \* main thread locals
@@ -76,8 +81,19 @@ macro WakeSend() {
     or     { await waker >= WFull; skip }           \* BlockingIOError, swallowed
 }
 
+macro CloseFd(f) {
+    closedfds := closedfds \cup {f};
+    ncl := ncl + 1;
+    if (myargs.some) {
+        gone := [k \in Kinds |-> gone[k] \cup ({f} \cap ready[k] \cap ArgsOf(myargs, k))];
+        must := [k \in Kinds |-> must[k] \ {f}]
+    };
+    ready := [k \in Kinds |-> ready[k] \ {f}]
+}
+
 macro RegOpTop() {
     with (op \in {"add", "rem"}, k \in Kinds, f \in FDs) {
+        await op = "rem" \/ f \notin closedfds;
         chg := chg + 1;
         if (op = "add" \/ f \in reg[k]) {
             reg[k] := IF op = "add" THEN reg[k] \cup {f} ELSE reg[k] \ {f};
@@ -88,6 +104,7 @@ macro RegOpTop() {
 
 macro RegOpRun() {
     with (op \in {"add", "rem"}, k \in Kinds, f \in FDs) {
+        await op = "rem" \/ f \notin closedfds;
         chg := chg + 1;
         if (op = "add" \/ f \in reg[k]) {
             reg[k] := IF op = "add" THEN reg[k] \cup {f} ELSE reg[k] \ {f};
@@ -114,6 +131,10 @@ m_top:      \* the event loop picks its next callback
     } or {      \* application callback: add/remove reader/writer
         await chg < MaxChg;
         RegOpTop()
+    } or {      \* application closes an fd it has unregistered (the EBADF race of _run_select)
+        await ncl < MaxClose;
+        with (f \in FDs \ (closedfds \cup reg["r"] \cup reg["w"])) { CloseFd(f) };
+        goto m_top
     } or {      \* close() / _atexit_callback(): with cond
         await mutex = 0;
         with (h \in {x \in Hows : ~closeCalled \/ (how = "atexit" /\ x = "close")}) { how := h };
@@ -129,6 +150,10 @@ m_run:      \* inside _handle_select: dispatch, or the body of the current callb
     } or {      \* callback body: registration change
         await cur # NoCb /\ chg < MaxChg;
         RegOpRun()
+    } or {      \* callback body: close an unregistered fd
+        await cur # NoCb /\ ncl < MaxClose;
+        with (f \in FDs \ (closedfds \cup reg["r"] \cup reg["w"])) { CloseFd(f) };
+        goto m_run
     } or {      \* callback body: the application closes the selector from inside a callback
         await cur # NoCb /\ mutex = 0 /\ "close" \in Hows /\ (~closeCalled \/ how = "atexit");
         how := "close";
@@ -212,14 +237,33 @@ s_woke:     \* wait() returns with the lock re-acquired
     goto s_cs;
 s_sel_begin:
     must := [k \in Kinds |-> ReadyNow(k) \cap ArgsOf(myargs, k)];
-s_sel_end:  \* select.select(to_read, to_write, to_write) returns
-    with (rs \in SeqsBetween(must["r"], ReadyNow("r") \cap myargs.r),
-          ws \in SeqsBetween(must["w"], ReadyNow("w") \cap myargs.w)) {
-        await Len(rs) + Len(ws) > 0;
-        res := [rs |-> rs, ws |-> ws]
+    gone := [k \in Kinds |-> {}];
+s_sel_end:  \* select.select(to_read, to_write, to_write) returns or raises EBADF
+    either {
+        with (rs \in SeqsBetween(must["r"], (ReadyNow("r") \cap myargs.r) \cup gone["r"]),
+              ws \in SeqsBetween(must["w"], (ReadyNow("w") \cap myargs.w) \cup gone["w"])) {
+            await Len(rs) + Len(ws) > 0;
+            res := [rs |-> rs, ws |-> ws]
+        };
+        must := [k \in Kinds |-> {}];
+        gone := [k \in Kinds |-> {}];
+        myargs := NoArgs;
+        goto s_post
+    } or {      \* OSError(EBADF): an fd of the arguments was closed before the call looked at it
+        await (myargs.r \cup myargs.w) \cap closedfds # {};
+        must := [k \in Kinds |-> {}];
+        gone := [k \in Kinds |-> {}];
+        myargs := NoArgs
     };
-    must := [k \in Kinds |-> {}];
-    myargs := NoArgs;
+s_poll_begin:   \* select.select([self._waker_r.fileno()], [], [], 0)
+    skip;
+s_poll_end:
+    if (waker > 0) {
+        res := [rs |-> <<RawWaker>>, ws |-> <<>>]
+    } else {    \* "raise": the selector thread dies with the original error
+        crashed := TRUE; sdone := TRUE;
+        goto Done
+    };
 s_post:     \* call_soon_threadsafe(_handle_select, rs, ws)
     queue := Append(queue, res);
     res := [rs |-> <<>>, ws |-> <<>>];
@@ -231,7 +275,7 @@ process (env = 3)
 e_loop:
     while (TRUE) {
         await envn < MaxEnv;
-        with (k \in Kinds, f \in FDs) {
+        with (k \in Kinds, f \in FDs \ closedfds) {
             await f \notin ready[k];
             ready[k] := ready[k] \cup {f};
             envn := envn + 1
@@ -241,8 +285,8 @@ e_loop:
 } *)
 \* BEGIN TRANSLATION
 VARIABLES pc, mutex, waitset, selArgs, closing, waker, reg, ready, queue, 
-          started, sdone, closeCalled, closed, how, chg, envn, myargs, must, 
-          res, todoR, todoW, cur, ret, cret
+          started, sdone, closeCalled, closed, how, chg, envn, ncl, closedfds, 
+          gone, crashed, myargs, must, res, todoR, todoW, cur, ret, cret
 
 (* define statement *)
 ReadyNow(k) == IF k = "r" THEN ready["r"] \cup (IF waker > 0 THEN {0} ELSE {}) ELSE ready["w"]
@@ -252,8 +296,9 @@ NextW == FirstReg(todoW, reg["w"])
 
 
 vars == << pc, mutex, waitset, selArgs, closing, waker, reg, ready, queue, 
-           started, sdone, closeCalled, closed, how, chg, envn, myargs, must, 
-           res, todoR, todoW, cur, ret, cret >>
+           started, sdone, closeCalled, closed, how, chg, envn, ncl, 
+           closedfds, gone, crashed, myargs, must, res, todoR, todoW, cur, 
+           ret, cret >>
 
 ProcSet == {1} \cup {2} \cup {3}
 
@@ -273,6 +318,10 @@ Init == (* Global variables *)
         /\ how = "none"
         /\ chg = 0
         /\ envn = 0
+        /\ ncl = 0
+        /\ closedfds = {}
+        /\ gone = [k \in Kinds |-> {}]
+        /\ crashed = FALSE
         /\ myargs = NoArgs
         /\ must = [k \in Kinds |-> {}]
         /\ res = [rs |-> <<>>, ws |-> <<>>]
@@ -295,23 +344,25 @@ m_init == /\ pc[1] = "m_init"
           /\ pc' = [pc EXCEPT ![1] = "m_top"]
           /\ UNCHANGED << mutex, waitset, selArgs, closing, ready, queue, 
                           started, sdone, closeCalled, closed, how, chg, envn, 
-                          myargs, must, res, todoR, todoW, cur, ret, cret >>
+                          ncl, closedfds, gone, crashed, myargs, must, res, 
+                          todoR, todoW, cur, ret, cret >>
 
 m_top == /\ pc[1] = "m_top"
          /\ \/ /\ ~started
                /\ started' = TRUE
                /\ pc' = [pc EXCEPT ![1] = "m_ss_acq"]
-               /\ UNCHANGED <<mutex, reg, queue, closeCalled, how, chg, todoR, todoW, ret>>
+               /\ UNCHANGED <<mutex, reg, ready, queue, closeCalled, how, chg, ncl, closedfds, gone, must, todoR, todoW, ret>>
             \/ /\ queue # <<>>
                /\ todoR' = Head(queue).rs
                /\ todoW' = Head(queue).ws
                /\ queue' = Tail(queue)
                /\ pc' = [pc EXCEPT ![1] = "m_run"]
-               /\ UNCHANGED <<mutex, reg, started, closeCalled, how, chg, ret>>
+               /\ UNCHANGED <<mutex, reg, ready, started, closeCalled, how, chg, ncl, closedfds, gone, must, ret>>
             \/ /\ chg < MaxChg
                /\ \E op \in {"add", "rem"}:
                     \E k \in Kinds:
                       \E f \in FDs:
+                        /\ op = "rem" \/ f \notin closedfds
                         /\ chg' = chg + 1
                         /\ IF op = "add" \/ f \in reg[k]
                               THEN /\ reg' = [reg EXCEPT ![k] = IF op = "add" THEN reg[k] \cup {f} ELSE reg[k] \ {f}]
@@ -322,26 +373,39 @@ m_top == /\ pc[1] = "m_top"
                                               /\ pc' = [pc EXCEPT ![1] = "m_wk"]
                               ELSE /\ pc' = [pc EXCEPT ![1] = "m_top"]
                                    /\ UNCHANGED << reg, ret >>
-               /\ UNCHANGED <<mutex, queue, started, closeCalled, how, todoR, todoW>>
+               /\ UNCHANGED <<mutex, ready, queue, started, closeCalled, how, ncl, closedfds, gone, must, todoR, todoW>>
+            \/ /\ ncl < MaxClose
+               /\ \E f \in FDs \ (closedfds \cup reg["r"] \cup reg["w"]):
+                    /\ closedfds' = (closedfds \cup {f})
+                    /\ ncl' = ncl + 1
+                    /\ IF myargs.some
+                          THEN /\ gone' = [k \in Kinds |-> gone[k] \cup ({f} \cap ready[k] \cap ArgsOf(myargs, k))]
+                               /\ must' = [k \in Kinds |-> must[k] \ {f}]
+                          ELSE /\ TRUE
+                               /\ UNCHANGED << gone, must >>
+                    /\ ready' = [k \in Kinds |-> ready[k] \ {f}]
+               /\ pc' = [pc EXCEPT ![1] = "m_top"]
+               /\ UNCHANGED <<mutex, reg, queue, started, closeCalled, how, chg, todoR, todoW, ret>>
             \/ /\ mutex = 0
                /\ \E h \in {x \in Hows : ~closeCalled \/ (how = "atexit" /\ x = "close")}:
                     how' = h
                /\ closeCalled' = TRUE
                /\ mutex' = 1
                /\ pc' = [pc EXCEPT ![1] = "m_cl_body"]
-               /\ UNCHANGED <<reg, queue, started, chg, todoR, todoW, ret>>
-         /\ UNCHANGED << waitset, selArgs, closing, waker, ready, sdone, 
-                         closed, envn, myargs, must, res, cur, cret >>
+               /\ UNCHANGED <<reg, ready, queue, started, chg, ncl, closedfds, gone, must, todoR, todoW, ret>>
+         /\ UNCHANGED << waitset, selArgs, closing, waker, sdone, closed, envn, 
+                         crashed, myargs, res, cur, cret >>
 
 m_run == /\ pc[1] = "m_run"
          /\ \/ /\ cur # NoCb /\ cur.f \in ready[cur.k]
                /\ ready' = [ready EXCEPT ![cur.k] = ready[cur.k] \ {cur.f}]
                /\ pc' = [pc EXCEPT ![1] = "m_run"]
-               /\ UNCHANGED <<mutex, waker, reg, closeCalled, how, chg, todoR, todoW, cur, ret, cret>>
+               /\ UNCHANGED <<mutex, waker, reg, closeCalled, how, chg, ncl, closedfds, gone, must, todoR, todoW, cur, ret, cret>>
             \/ /\ cur # NoCb /\ chg < MaxChg
                /\ \E op \in {"add", "rem"}:
                     \E k \in Kinds:
                       \E f \in FDs:
+                        /\ op = "rem" \/ f \notin closedfds
                         /\ chg' = chg + 1
                         /\ IF op = "add" \/ f \in reg[k]
                               THEN /\ reg' = [reg EXCEPT ![k] = IF op = "add" THEN reg[k] \cup {f} ELSE reg[k] \ {f}]
@@ -352,14 +416,26 @@ m_run == /\ pc[1] = "m_run"
                                               /\ pc' = [pc EXCEPT ![1] = "m_wk"]
                               ELSE /\ pc' = [pc EXCEPT ![1] = "m_run"]
                                    /\ UNCHANGED << reg, ret >>
-               /\ UNCHANGED <<mutex, waker, ready, closeCalled, how, todoR, todoW, cur, cret>>
+               /\ UNCHANGED <<mutex, waker, ready, closeCalled, how, ncl, closedfds, gone, must, todoR, todoW, cur, cret>>
+            \/ /\ cur # NoCb /\ ncl < MaxClose
+               /\ \E f \in FDs \ (closedfds \cup reg["r"] \cup reg["w"]):
+                    /\ closedfds' = (closedfds \cup {f})
+                    /\ ncl' = ncl + 1
+                    /\ IF myargs.some
+                          THEN /\ gone' = [k \in Kinds |-> gone[k] \cup ({f} \cap ready[k] \cap ArgsOf(myargs, k))]
+                               /\ must' = [k \in Kinds |-> must[k] \ {f}]
+                          ELSE /\ TRUE
+                               /\ UNCHANGED << gone, must >>
+                    /\ ready' = [k \in Kinds |-> ready[k] \ {f}]
+               /\ pc' = [pc EXCEPT ![1] = "m_run"]
+               /\ UNCHANGED <<mutex, waker, reg, closeCalled, how, chg, todoR, todoW, cur, ret, cret>>
             \/ /\ cur # NoCb /\ mutex = 0 /\ "close" \in Hows /\ (~closeCalled \/ how = "atexit")
                /\ how' = "close"
                /\ closeCalled' = TRUE
                /\ mutex' = 1
                /\ cret' = "m_run"
                /\ pc' = [pc EXCEPT ![1] = "m_cl_body"]
-               /\ UNCHANGED <<waker, reg, ready, chg, todoR, todoW, cur, ret>>
+               /\ UNCHANGED <<waker, reg, ready, chg, ncl, closedfds, gone, must, todoR, todoW, cur, ret>>
             \/ /\ NextR # 0
                /\ IF todoR[NextR] = 0
                      THEN /\ waker' = (IF waker > RecvMax THEN waker - RecvMax ELSE 0)
@@ -368,22 +444,22 @@ m_run == /\ pc[1] = "m_run"
                           /\ waker' = waker
                /\ todoR' = Drop(todoR, NextR)
                /\ pc' = [pc EXCEPT ![1] = "m_run"]
-               /\ UNCHANGED <<mutex, reg, ready, closeCalled, how, chg, todoW, ret, cret>>
+               /\ UNCHANGED <<mutex, reg, ready, closeCalled, how, chg, ncl, closedfds, gone, must, todoW, ret, cret>>
             \/ /\ NextR = 0 /\ NextW # 0
                /\ cur' = [k |-> "w", f |-> todoW[NextW]]
                /\ todoR' = <<>>
                /\ todoW' = Drop(todoW, NextW)
                /\ pc' = [pc EXCEPT ![1] = "m_run"]
-               /\ UNCHANGED <<mutex, waker, reg, ready, closeCalled, how, chg, ret, cret>>
+               /\ UNCHANGED <<mutex, waker, reg, ready, closeCalled, how, chg, ncl, closedfds, gone, must, ret, cret>>
             \/ /\ NextR = 0 /\ NextW = 0 /\ mutex = 0
                /\ cur' = NoCb
                /\ todoR' = <<>>
                /\ todoW' = <<>>
                /\ mutex' = 1
                /\ pc' = [pc EXCEPT ![1] = "m_ss_body"]
-               /\ UNCHANGED <<waker, reg, ready, closeCalled, how, chg, ret, cret>>
+               /\ UNCHANGED <<waker, reg, ready, closeCalled, how, chg, ncl, closedfds, gone, must, ret, cret>>
          /\ UNCHANGED << waitset, selArgs, closing, queue, started, sdone, 
-                         closed, envn, myargs, must, res >>
+                         closed, envn, crashed, myargs, res >>
 
 m_wk == /\ pc[1] = "m_wk"
         /\ \/ /\ waker < MaxW
@@ -398,7 +474,8 @@ m_wk == /\ pc[1] = "m_wk"
                    /\ pc' = [pc EXCEPT ![1] = "m_run"]
         /\ UNCHANGED << mutex, waitset, selArgs, closing, reg, ready, queue, 
                         started, sdone, closeCalled, closed, how, chg, envn, 
-                        myargs, must, res, todoR, todoW, cur, cret >>
+                        ncl, closedfds, gone, crashed, myargs, must, res, 
+                        todoR, todoW, cur, cret >>
 
 m_ss_acq == /\ pc[1] = "m_ss_acq"
             /\ mutex = 0
@@ -406,40 +483,42 @@ m_ss_acq == /\ pc[1] = "m_ss_acq"
             /\ pc' = [pc EXCEPT ![1] = "m_ss_body"]
             /\ UNCHANGED << waitset, selArgs, closing, waker, reg, ready, 
                             queue, started, sdone, closeCalled, closed, how, 
-                            chg, envn, myargs, must, res, todoR, todoW, cur, 
-                            ret, cret >>
+                            chg, envn, ncl, closedfds, gone, crashed, myargs, 
+                            must, res, todoR, todoW, cur, ret, cret >>
 
 m_ss_body == /\ pc[1] = "m_ss_body"
              /\ selArgs' = [some |-> TRUE, r |-> reg["r"], w |-> reg["w"]]
              /\ waitset' = {}
              /\ pc' = [pc EXCEPT ![1] = "m_ss_rel"]
              /\ UNCHANGED << mutex, closing, waker, reg, ready, queue, started, 
-                             sdone, closeCalled, closed, how, chg, envn, 
-                             myargs, must, res, todoR, todoW, cur, ret, cret >>
+                             sdone, closeCalled, closed, how, chg, envn, ncl, 
+                             closedfds, gone, crashed, myargs, must, res, 
+                             todoR, todoW, cur, ret, cret >>
 
 m_ss_rel == /\ pc[1] = "m_ss_rel"
             /\ mutex' = 0
             /\ pc' = [pc EXCEPT ![1] = "m_top"]
             /\ UNCHANGED << waitset, selArgs, closing, waker, reg, ready, 
                             queue, started, sdone, closeCalled, closed, how, 
-                            chg, envn, myargs, must, res, todoR, todoW, cur, 
-                            ret, cret >>
+                            chg, envn, ncl, closedfds, gone, crashed, myargs, 
+                            must, res, todoR, todoW, cur, ret, cret >>
 
 m_cl_body == /\ pc[1] = "m_cl_body"
              /\ closing' = TRUE
              /\ waitset' = {}
              /\ pc' = [pc EXCEPT ![1] = "m_cl_rel"]
              /\ UNCHANGED << mutex, selArgs, waker, reg, ready, queue, started, 
-                             sdone, closeCalled, closed, how, chg, envn, 
-                             myargs, must, res, todoR, todoW, cur, ret, cret >>
+                             sdone, closeCalled, closed, how, chg, envn, ncl, 
+                             closedfds, gone, crashed, myargs, must, res, 
+                             todoR, todoW, cur, ret, cret >>
 
 m_cl_rel == /\ pc[1] = "m_cl_rel"
             /\ mutex' = 0
             /\ pc' = [pc EXCEPT ![1] = "m_cl_wk"]
             /\ UNCHANGED << waitset, selArgs, closing, waker, reg, ready, 
                             queue, started, sdone, closeCalled, closed, how, 
-                            chg, envn, myargs, must, res, todoR, todoW, cur, 
-                            ret, cret >>
+                            chg, envn, ncl, closedfds, gone, crashed, myargs, 
+                            must, res, todoR, todoW, cur, ret, cret >>
 
 m_cl_wk == /\ pc[1] = "m_cl_wk"
            /\ \/ /\ waker < MaxW
@@ -454,7 +533,8 @@ m_cl_wk == /\ pc[1] = "m_cl_wk"
                  ELSE /\ pc' = [pc EXCEPT ![1] = "m_cl_join"]
            /\ UNCHANGED << mutex, waitset, selArgs, closing, reg, ready, queue, 
                            started, sdone, closeCalled, closed, how, chg, envn, 
-                           myargs, must, res, todoR, todoW, cur, ret, cret >>
+                           ncl, closedfds, gone, crashed, myargs, must, res, 
+                           todoR, todoW, cur, ret, cret >>
 
 m_cl_join == /\ pc[1] = "m_cl_join"
              /\ sdone
@@ -463,8 +543,8 @@ m_cl_join == /\ pc[1] = "m_cl_join"
                    ELSE /\ pc' = [pc EXCEPT ![1] = "m_cl_rm"]
              /\ UNCHANGED << mutex, waitset, selArgs, closing, waker, reg, 
                              ready, queue, started, sdone, closeCalled, closed, 
-                             how, chg, envn, myargs, must, res, todoR, todoW, 
-                             cur, ret, cret >>
+                             how, chg, envn, ncl, closedfds, gone, crashed, 
+                             myargs, must, res, todoR, todoW, cur, ret, cret >>
 
 m_cl_rm == /\ pc[1] = "m_cl_rm"
            /\ reg' = [reg EXCEPT !["r"] = reg["r"] \ {0}]
@@ -476,7 +556,8 @@ m_cl_rm == /\ pc[1] = "m_cl_rm"
            /\ pc' = [pc EXCEPT ![1] = "m_cl_end"]
            /\ UNCHANGED << mutex, waitset, selArgs, closing, ready, queue, 
                            started, sdone, closeCalled, closed, how, chg, envn, 
-                           myargs, must, res, todoR, todoW, cur, ret, cret >>
+                           ncl, closedfds, gone, crashed, myargs, must, res, 
+                           todoR, todoW, cur, ret, cret >>
 
 m_cl_end == /\ pc[1] = "m_cl_end"
             /\ closed' = TRUE
@@ -487,8 +568,8 @@ m_cl_end == /\ pc[1] = "m_cl_end"
                        /\ pc' = [pc EXCEPT ![1] = "m_run"]
             /\ UNCHANGED << mutex, waitset, selArgs, closing, waker, reg, 
                             ready, queue, started, sdone, closeCalled, how, 
-                            chg, envn, myargs, must, res, todoR, todoW, cur, 
-                            ret >>
+                            chg, envn, ncl, closedfds, gone, crashed, myargs, 
+                            must, res, todoR, todoW, cur, ret >>
 
 main == m_init \/ m_top \/ m_run \/ m_wk \/ m_ss_acq \/ m_ss_body
            \/ m_ss_rel \/ m_cl_body \/ m_cl_rel \/ m_cl_wk \/ m_cl_join
@@ -500,7 +581,8 @@ s_acq == /\ pc[2] = "s_acq"
          /\ pc' = [pc EXCEPT ![2] = "s_cs"]
          /\ UNCHANGED << waitset, selArgs, closing, waker, reg, ready, queue, 
                          started, sdone, closeCalled, closed, how, chg, envn, 
-                         myargs, must, res, todoR, todoW, cur, ret, cret >>
+                         ncl, closedfds, gone, crashed, myargs, must, res, 
+                         todoR, todoW, cur, ret, cret >>
 
 s_cs == /\ pc[2] = "s_cs"
         /\ IF ~selArgs.some /\ ~closing
@@ -520,8 +602,8 @@ s_cs == /\ pc[2] = "s_cs"
                               /\ sdone' = sdone
                    /\ UNCHANGED waitset
         /\ UNCHANGED << closing, waker, reg, ready, queue, started, 
-                        closeCalled, closed, how, chg, envn, must, res, todoR, 
-                        todoW, cur, ret, cret >>
+                        closeCalled, closed, how, chg, envn, ncl, closedfds, 
+                        gone, crashed, must, res, todoR, todoW, cur, ret, cret >>
 
 s_woke == /\ pc[2] = "s_woke"
           /\ 2 \notin waitset /\ mutex = 0
@@ -529,27 +611,60 @@ s_woke == /\ pc[2] = "s_woke"
           /\ pc' = [pc EXCEPT ![2] = "s_cs"]
           /\ UNCHANGED << waitset, selArgs, closing, waker, reg, ready, queue, 
                           started, sdone, closeCalled, closed, how, chg, envn, 
-                          myargs, must, res, todoR, todoW, cur, ret, cret >>
+                          ncl, closedfds, gone, crashed, myargs, must, res, 
+                          todoR, todoW, cur, ret, cret >>
 
 s_sel_begin == /\ pc[2] = "s_sel_begin"
                /\ must' = [k \in Kinds |-> ReadyNow(k) \cap ArgsOf(myargs, k)]
+               /\ gone' = [k \in Kinds |-> {}]
                /\ pc' = [pc EXCEPT ![2] = "s_sel_end"]
                /\ UNCHANGED << mutex, waitset, selArgs, closing, waker, reg, 
                                ready, queue, started, sdone, closeCalled, 
-                               closed, how, chg, envn, myargs, res, todoR, 
-                               todoW, cur, ret, cret >>
+                               closed, how, chg, envn, ncl, closedfds, crashed, 
+                               myargs, res, todoR, todoW, cur, ret, cret >>
 
 s_sel_end == /\ pc[2] = "s_sel_end"
-             /\ \E rs \in SeqsBetween(must["r"], ReadyNow("r") \cap myargs.r):
-                  \E ws \in SeqsBetween(must["w"], ReadyNow("w") \cap myargs.w):
-                    /\ Len(rs) + Len(ws) > 0
-                    /\ res' = [rs |-> rs, ws |-> ws]
-             /\ must' = [k \in Kinds |-> {}]
-             /\ myargs' = NoArgs
-             /\ pc' = [pc EXCEPT ![2] = "s_post"]
+             /\ \/ /\ \E rs \in SeqsBetween(must["r"], (ReadyNow("r") \cap myargs.r) \cup gone["r"]):
+                        \E ws \in SeqsBetween(must["w"], (ReadyNow("w") \cap myargs.w) \cup gone["w"]):
+                          /\ Len(rs) + Len(ws) > 0
+                          /\ res' = [rs |-> rs, ws |-> ws]
+                   /\ must' = [k \in Kinds |-> {}]
+                   /\ gone' = [k \in Kinds |-> {}]
+                   /\ myargs' = NoArgs
+                   /\ pc' = [pc EXCEPT ![2] = "s_post"]
+                \/ /\ (myargs.r \cup myargs.w) \cap closedfds # {}
+                   /\ must' = [k \in Kinds |-> {}]
+                   /\ gone' = [k \in Kinds |-> {}]
+                   /\ myargs' = NoArgs
+                   /\ pc' = [pc EXCEPT ![2] = "s_poll_begin"]
+                   /\ res' = res
              /\ UNCHANGED << mutex, waitset, selArgs, closing, waker, reg, 
                              ready, queue, started, sdone, closeCalled, closed, 
-                             how, chg, envn, todoR, todoW, cur, ret, cret >>
+                             how, chg, envn, ncl, closedfds, crashed, todoR, 
+                             todoW, cur, ret, cret >>
+
+s_poll_begin == /\ pc[2] = "s_poll_begin"
+                /\ TRUE
+                /\ pc' = [pc EXCEPT ![2] = "s_poll_end"]
+                /\ UNCHANGED << mutex, waitset, selArgs, closing, waker, reg, 
+                                ready, queue, started, sdone, closeCalled, 
+                                closed, how, chg, envn, ncl, closedfds, gone, 
+                                crashed, myargs, must, res, todoR, todoW, cur, 
+                                ret, cret >>
+
+s_poll_end == /\ pc[2] = "s_poll_end"
+              /\ IF waker > 0
+                    THEN /\ res' = [rs |-> <<RawWaker>>, ws |-> <<>>]
+                         /\ pc' = [pc EXCEPT ![2] = "s_post"]
+                         /\ UNCHANGED << sdone, crashed >>
+                    ELSE /\ crashed' = TRUE
+                         /\ sdone' = TRUE
+                         /\ pc' = [pc EXCEPT ![2] = "Done"]
+                         /\ res' = res
+              /\ UNCHANGED << mutex, waitset, selArgs, closing, waker, reg, 
+                              ready, queue, started, closeCalled, closed, how, 
+                              chg, envn, ncl, closedfds, gone, myargs, must, 
+                              todoR, todoW, cur, ret, cret >>
 
 s_post == /\ pc[2] = "s_post"
           /\ queue' = Append(queue, res)
@@ -557,21 +672,24 @@ s_post == /\ pc[2] = "s_post"
           /\ pc' = [pc EXCEPT ![2] = "s_acq"]
           /\ UNCHANGED << mutex, waitset, selArgs, closing, waker, reg, ready, 
                           started, sdone, closeCalled, closed, how, chg, envn, 
-                          myargs, must, todoR, todoW, cur, ret, cret >>
+                          ncl, closedfds, gone, crashed, myargs, must, todoR, 
+                          todoW, cur, ret, cret >>
 
-sel == s_acq \/ s_cs \/ s_woke \/ s_sel_begin \/ s_sel_end \/ s_post
+sel == s_acq \/ s_cs \/ s_woke \/ s_sel_begin \/ s_sel_end \/ s_poll_begin
+          \/ s_poll_end \/ s_post
 
 e_loop == /\ pc[3] = "e_loop"
           /\ envn < MaxEnv
           /\ \E k \in Kinds:
-               \E f \in FDs:
+               \E f \in FDs \ closedfds:
                  /\ f \notin ready[k]
                  /\ ready' = [ready EXCEPT ![k] = ready[k] \cup {f}]
                  /\ envn' = envn + 1
           /\ pc' = [pc EXCEPT ![3] = "e_loop"]
           /\ UNCHANGED << mutex, waitset, selArgs, closing, waker, reg, queue, 
-                          started, sdone, closeCalled, closed, how, chg, 
-                          myargs, must, res, todoR, todoW, cur, ret, cret >>
+                          started, sdone, closeCalled, closed, how, chg, ncl, 
+                          closedfds, gone, crashed, myargs, must, res, todoR, 
+                          todoW, cur, ret, cret >>
 
 env == e_loop
 
@@ -603,7 +721,7 @@ TypeOK ==
    _select_args; the selector thread holds it while it selects and hands it back through the
    loop's callback queue; _handle_select holds it until it calls _start_select again. *)
 TokArgs == IF selArgs.some THEN 1 ELSE 0
-TokSel  == IF pc[2] \in {"s_sel_begin", "s_sel_end", "s_post"} THEN 1 ELSE 0
+TokSel  == IF pc[2] \in {"s_sel_begin", "s_sel_end", "s_poll_begin", "s_poll_end", "s_post"} THEN 1 ELSE 0
 CloseLabels == {"m_cl_body", "m_cl_rel", "m_cl_wk", "m_cl_join", "m_cl_rm", "m_cl_end"}
 TokMain == IF \/ ~started
               \/ pc[1] \in {"m_ss_acq", "m_ss_body", "m_run"}
@@ -626,7 +744,17 @@ NoUnreadyDuringSelect ==
     pc[2] = "s_sel_end" => \A k \in Kinds : must[k] \subseteq ReadyNow(k) \cap ArgsOf(myargs, k)
 (* no lost registration: the selector thread never sleeps in select on a stale fd set with no
    wake-up byte pending while the main thread is idle *)
-SelectBlocked == pc[2] = "s_sel_end" /\ \A k \in Kinds : ReadyNow(k) \cap ArgsOf(myargs, k) = {}
+SelectBlocked == /\ pc[2] = "s_sel_end"
+                 /\ \A k \in Kinds : ReadyNow(k) \cap ArgsOf(myargs, k) = {} /\ gone[k] = {}
+                 /\ (myargs.r \cup myargs.w) \cap closedfds = {}
+(* the EBADF race: whenever the selector thread may meet a closed fd (the application removed it
+   and then closed it) the wake-up byte of that removal is still unread, so the fallback poll of
+   the waker finds it readable and the thread never dies with the original error; it also makes
+   the select contract honest (a select that holds a closed fd is never the only thing pending) *)
+ClosedFdImpliesWake ==
+    (myargs.some /\ (myargs.r \cup myargs.w) \cap closedfds # {}) => waker > 0
+PollFindsWake == pc[2] \in {"s_poll_begin", "s_poll_end"} => waker > 0
+NoCrash == ~crashed
 NoStaleSleep ==
     (SelectBlocked /\ pc[1] = "m_top" /\ ~closed) => (myargs.r = reg["r"] /\ myargs.w = reg["w"])
 (* close() returns only with the selector thread stopped *)
